@@ -15,15 +15,33 @@ BOUNDS = {
     "thorough": {"body": "0-3 chunks of 0-3 bytes", "header_value": "<= 5 characters"},
 }
 STUBS = ["the status code is injected as Response._status_code (status text normalisation is a table lookup, checked separately for ints)"]
-ASSUMPTIONS = ["no Location header (IRI handling is stdlib URL code)", "body items are bytes"]
-OUTSIDE = ["str body items / charset encoding", "real file wrappers (direct passthrough is exercised with a closable iterable)", "Location autocorrection", "generator bodies (not a sequence: no computed length)"]
+ASSUMPTIONS = ["no Location header (IRI handling is stdlib URL code)", "str body items hold code points <= U+07FF"]
+OUTSIDE = ["str body items beyond U+07FF", "real file wrappers (direct passthrough is exercised with a closable iterable)", "Location autocorrection", "generator bodies (not a sequence: no computed length)"]
 
 
-def body_wsgi_response(I, X, method="GET", lens=(1, 2), preset="absent"):
+def utf8_len(s):
+    """number of UTF-8 bytes of a text over U+0000..U+07FF (independent of the codec model)"""
+    n = 0
+    for i in range(plen(s)):
+        n += 1 if bool(pall_in(s[i:i + 1], [(0, 0x7F)])) else 2
+    return n
+
+
+def body_wsgi_response(I, X, method="GET", lens=(1, 2), preset="absent", kinds=None):
     from werkzeug.wrappers import Response
 
-    chunks = [X.bytes(f"c{i}", n, minlen=n) for i, n in enumerate(lens)]
-    resp = Response(list(chunks))
+    kinds = kinds or "b" * len(lens)
+    # 's' items are str (solver code points up to U+07FF): the response encodes them as UTF-8
+    items = [X.bytes(f"c{i}", n, minlen=n) if k == "b" else X.str(f"c{i}", n, minlen=n, maxcp=0x7FF) for i, (n, k) in enumerate(zip(lens, kinds))]
+    resp = Response(list(items))
+    if "s" in kinds:
+        for it, k in zip(items, kinds):
+            if k == "s":
+                X.assume(pall_in(it, [(0, 0x7FF)]))
+        chunks = [it if k == "b" else it.encode("utf-8") for it, k in zip(items, kinds)]
+        lens = [n if k == "b" else utf8_len(it) for n, it, k in zip(lens, items, kinds)]
+    else:
+        chunks = items
     status = X.int("status", 100, 599)
     resp._status_code = status
     resp._status = "200 OK"
@@ -119,6 +137,56 @@ def body_passthrough(I, X, method="GET", lens=(2,)):
     return ok, {"out": out, "closed": len(closed), "body_closed": pb.closed}
 
 
+class ClosableBody:
+    """a closable, non-sequence application iterable (like a file object)"""
+
+    def __init__(self, chunks):
+        self.chunks = list(chunks)
+        self.closed = 0
+
+    def __iter__(self):
+        return iter(self.chunks)
+
+    def close(self):
+        self.closed += 1
+
+
+def body_buffered_close(I, X, via="make_sequence", method="GET", lens=(2,)):
+    """a closable iterable body that is buffered into a list (explicitly by make_sequence,
+    implicitly by get_data / calculate_content_length) is still closed exactly once, and the
+    registered callbacks still run exactly once, when the server closes the response iterable"""
+    from werkzeug.wrappers import Response
+
+    chunks = [X.bytes(f"c{i}", n, minlen=n) for i, n in enumerate(lens)]
+    cb = ClosableBody(chunks)
+    resp = Response(cb)
+    status = X.int("status", 100, 599)
+    resp._status_code = status
+    resp._status = "200 OK"
+    closed = []
+    resp.call_on_close(lambda: closed.append(1))
+    if via == "make_sequence":
+        I.call(resp.make_sequence, ())
+    elif via == "get_data":
+        I.call(resp.get_data, ())
+    elif via == "calculate_content_length":
+        I.call(resp.calculate_content_length, ())
+    environ = {"REQUEST_METHOD": method, "wsgi.url_scheme": "http", "SERVER_NAME": "s", "SERVER_PORT": "80", "PATH_INFO": "/"}
+    app_iter, st, headers = I.call(resp.get_wsgi_response, (environ,))
+    out = b""
+    for item in (I.call(app_iter.__iter__, ()) if not isinstance(app_iter, (tuple, list)) else app_iter):
+        out = pconcat(out, item)
+    if hasattr(app_iter, "close"):
+        I.call(app_iter.close, ())
+    bodyless = por(pand(status >= 100, status < 200), peq(status, 204), peq(status, 304))
+    if method == "HEAD" or bool(bodyless):
+        ok = plen(out) == 0
+    else:
+        ok = peq(out, pconcat(b"", *chunks))
+    ok = pand(ok, len(closed) == 1, cb.closed == 1)
+    return ok, {"out": out, "closed": len(closed), "body_closed": cb.closed}
+
+
 MUTATORS = ["add", "set", "setitem", "setlist", "extend-list", "extend-kw", "update-dict", "setdefault", "add_header", "index-assign",
             "slice-assign", "init", "setlistdefault", "set-option", "ior"]
 
@@ -203,6 +271,18 @@ def obligations(tier, seed):
                 out.append({"name": f"wsgi_response[{method},lens={lens},cl={preset}]", "body": "body_wsgi_response",
                             "params": {"method": method, "lens": list(lens), "preset": preset},
                             "opts": {"budget_s": 600, "ctx": {"bv_ints": True}}, "witness": lens == (1, 2) and preset == "absent"})
+    for method in ("GET", "HEAD"):
+        for lens, kinds in [((1,), "s"), ((2,), "s"), ((1, 1), "sb"), ((1, 2), "bs"), ((2, 1), "ss")] + ([] if quick else [((3,), "s"), ((2, 2), "ss"), ((1, 1, 1), "sbs")]):
+            for preset in ("absent", "right"):
+                out.append({"name": f"wsgi_response[{method},lens={lens},kinds={kinds},cl={preset}]", "body": "body_wsgi_response",
+                            "params": {"method": method, "lens": list(lens), "preset": preset, "kinds": kinds},
+                            "opts": {"budget_s": 600, "ctx": {"bv_ints": True, "max_cp": 0x7FF}}})
+    for via in ("make_sequence", "get_data", "calculate_content_length", "none"):
+        for method in ("GET", "HEAD"):
+            for lens in [(), (2,), (1, 0)]:
+                out.append({"name": f"buffered_close[{via},{method},lens={lens}]", "body": "body_buffered_close",
+                            "params": {"via": via, "method": method, "lens": list(lens)},
+                            "opts": {"budget_s": 600, "ctx": {"bv_ints": True}}})
     for method in ("GET", "HEAD", "POST"):
         for lens in [(), (2,), (1, 0, 2)]:
             out.append({"name": f"passthrough[{method},lens={lens}]", "body": "body_passthrough", "params": {"method": method, "lens": list(lens)},
